@@ -332,7 +332,7 @@ pub fn run(ctx: &Ctx) {
         return;
     }
     let hashes: Vec<HashId> = if ctx.quick() { vec![HashId::Sha256_256, HashId::Shake256_128] } else { vec![HashId::Sha256_256, HashId::Sha256_192, HashId::Shake256_128, HashId::Shake256_256] };
-    let per = ctx.tier.pick(3usize, 6usize);
+    let per = ctx.tier.pick(4usize, 6usize);
     for c in configs(!ctx.quick()) {
         let pool = ProbePool::new(base.join(format!("target-cfg/{}/release/vprobe", c.name)).to_str().unwrap());
         if !pool.exists() {
